@@ -1389,6 +1389,14 @@ func remapIndex(ctx context.Context, mp *mhprimary.MultihashPrimary, buckets Buc
 		// If this file was already remapped, skip it.
 		_, err = os.Stat(doneName)
 		if !os.IsNotExist(err) {
+			// The marker is created when the remapped copy is complete, and
+			// the copy then replaces the index file. If the process stopped
+			// in between, the copy is still there: let it replace the file.
+			if _, err = os.Stat(tmpName); err == nil {
+				if err = os.Rename(tmpName, fileName); err != nil {
+					return nil, fmt.Errorf("error renaming remapped file %s to %s: %w", tmpName, fileName, err)
+				}
+			}
 			log.Infow("index file already remapped", "file", fileName)
 			indexCount += len(bucketPrefixes)
 			continue
